@@ -95,9 +95,9 @@ def envelope_ok(old, new):
             if min(nc[a], new["size"][a]) > 2 * half:
                 return ("axis %d: new chunk %d needs more than two "
                         "downscaled old chunks of %d" % (a, nc[a], half))
-            if nc[a] < half and new["size"][a] > nc[a]:
-                return ("axis %d: new chunk %d smaller than a downscaled "
-                        "old chunk %d" % (a, nc[a], half))
+            if nc[a] % half and new["size"][a] > nc[a]:
+                return ("axis %d: new chunks of %d are not tiled by "
+                        "downscaled old chunks of %d" % (a, nc[a], half))
     return None
 
 
